@@ -42,6 +42,7 @@ class _Derive:
         self.fi = fi
         self.exc = w.cfg(fi).exc
         self.results: list[list[_Part]] = []
+        self.domains: list[tuple] = []      # (variable, lo, hi): one-byte signed operands whose range a guard spells out
         self.list_var = None
 
     def run(self):
@@ -51,7 +52,8 @@ class _Derive:
     # state: parts list, facts dict expr-text -> const, defs var -> expr
     def _fork(self, st):
         return {'parts': list(st['parts']), 'facts': dict(st['facts']), 'defs': dict(st['defs']),
-                'done': st['done'], 'ver': dict(st.get('ver', {})), 'snap': dict(st.get('snap', {}))}
+                'done': st['done'], 'ver': dict(st.get('ver', {})), 'snap': dict(st.get('snap', {})),
+                'domains': list(st.get('domains', []))}
 
     def _block(self, stmts, st, top=False):
         """Returns list of states after the block (states with done=True have returned)."""
@@ -177,6 +179,7 @@ class _Derive:
                     return [st]
                 raise AnalysisError(f'{self.fi.key}: unrecognised return `{ast.unparse(s)[:60]}`')
             self.results.append(list(parts))
+            self.domains += [d for d in st.get('domains', []) if d not in self.domains]
             st['done'] = True
             return [st]
         if isinstance(s, ast.Raise):
@@ -286,6 +289,7 @@ class _Derive:
             lo = st['facts'].get('>=' + e.args[0].id)
             hi = st['facts'].get('<=' + e.args[0].id)
             if lo is not None and hi is not None and -128 <= lo and hi <= 127:
+                st.setdefault('domains', []).append(('s', e.args[0].id, lo, hi))
                 return 1
         if isinstance(e, ast.Call) and dotted(e.func) == 'struct.pack' and e.args and \
                 isinstance(e.args[0], ast.Constant):
@@ -377,6 +381,9 @@ class _Derive:
                 return [_Part('prefix', width=k, var=v, maxlen=st['facts'].get(f'<=len({v})'))]
             if isinstance(recv, ast.Constant) and isinstance(recv.value, int):
                 return [_Part('prefix', width=k, value=recv.value)]
+            if isinstance(e.func.value, ast.Name):
+                nm = e.func.value.id
+                st.setdefault('domains', []).append((f'u{k}', nm, st['facts'].get('>=' + nm), st['facts'].get('<=' + nm)))
             return [_Part('fixed', width=k)]
         n = self._len_of(e, st)
         if n is not None:
@@ -442,6 +449,84 @@ def helper_shapes(w: World, helper: str) -> tuple[set, list]:
             shapes.add(tuple(toks))
         # paths whose payload is not provably bytes raise at join: ignored, not flagged
     return shapes, problems
+
+
+def helper_decimal_domains(w: World, helper: str) -> list[tuple]:
+    """(codec, variable, lo, hi) for every numeric operand whose admissible range the helper spells out with
+    comparisons: codec 's' = `int_to_bytes(n)` proved one byte wide by the bounds, 'u<k>' = `n.to_bytes(k, 'big')`
+    (lo / hi None when no guard bounds that side: the codec itself raises there)."""
+    d = _Derive(w, w.repo.func('parsing', helper))
+    d.run()
+    return list(d.domains)
+
+
+def _int_typed(e, ints: set) -> bool:
+    if isinstance(e, ast.Call) and isinstance(e.func, ast.Name) and e.func.id == 'int' and e.args and \
+            not isinstance(e.args[0], ast.Constant):
+        return True
+    if isinstance(e, ast.Name):
+        return e.id in ints
+    if isinstance(e, ast.BinOp):
+        return _int_typed(e.left, ints) or _int_typed(e.right, ints)
+    if isinstance(e, ast.UnaryOp):
+        return _int_typed(e.operand, ints)
+    if isinstance(e, ast.IfExp):
+        return _int_typed(e.body, ints) or _int_typed(e.orelse, ints)
+    return False
+
+
+def _lossless_numbers(w: World, rep: Report):
+    """A number written in the source reaches the byte code only through an encoder that either represents it or
+    raises (`int_to_bytes` + length check, `n.to_bytes(k, 'big')`, struct.pack): no masking, modulo, shifting,
+    clamping or slicing in between - those turn an operand that does not fit into another, valid-looking one."""
+    rep.rule('C11.R8', 'numbers parsed from the source reach their encoder unreduced: no `&`, `%`, shifts, abs/min/max '
+             'clamps on the integer and no slicing of its encoding (an operand that does not fit is refused, not wrapped)',
+             floor=8)
+    n_sites = 0
+    for fi in w.repo.all_funcs(['parsing']):
+        ints: set[str] = set()
+        for _ in range(3):
+            for s2 in ast.walk(fi.node):
+                tg, val = [], None
+                if isinstance(s2, ast.Assign):
+                    tg, val = s2.targets, s2.value
+                elif isinstance(s2, ast.AnnAssign) and s2.value is not None:
+                    tg, val = [s2.target], s2.value
+                elif isinstance(s2, ast.NamedExpr):
+                    tg, val = [s2.target], s2.value
+                if val is not None and _int_typed(val, ints):
+                    ints |= {t.id for t in tg if isinstance(t, ast.Name)}
+        sites = [x for x in ast.walk(fi.node) if isinstance(x, ast.Call) and isinstance(x.func, ast.Name) and
+                 x.func.id == 'int' and x.args and not isinstance(x.args[0], ast.Constant)]
+        if not sites:
+            continue
+        n_sites += len(sites)
+        bad = []
+        for x in ast.walk(fi.node):
+            if isinstance(x, ast.BinOp) and isinstance(x.op, (ast.BitAnd, ast.Mod, ast.RShift, ast.LShift, ast.FloorDiv,
+                                                                 ast.BitOr, ast.BitXor)) and \
+                    (_int_typed(x.left, ints) or (_int_typed(x.right, ints) and not isinstance(x.left, ast.Constant))):
+                if isinstance(x.op, ast.Mod) and isinstance(x.left, (ast.Constant, ast.JoinedStr)):
+                    continue        # string formatting
+                bad.append((x.lineno, ast.unparse(x)[:50]))
+            if isinstance(x, ast.Call) and isinstance(x.func, ast.Name) and x.func.id in ('abs', 'min', 'max', 'divmod') \
+                    and any(_int_typed(a, ints) for a in x.args):
+                bad.append((x.lineno, ast.unparse(x)[:50]))
+            if isinstance(x, ast.Subscript) and isinstance(x.value, ast.Call):
+                c = x.value
+                enc = (isinstance(c.func, ast.Name) and c.func.id in ('int_to_bytes', 'uint_to_bytes') and c.args and
+                       _int_typed(c.args[0], ints)) or \
+                      (isinstance(c.func, ast.Attribute) and c.func.attr == 'to_bytes' and _int_typed(c.func.value, ints))
+                if enc:
+                    bad.append((x.lineno, ast.unparse(x)[:50]))
+        rep.check('C11.R8', f'{fi.key}|source-numbers-encoded-unreduced', not bad,
+                  line=bad[0][0] if bad else fi.node.lineno, file='tapescript/parsing.py',
+                  why='' if not bad else
+                  f'`{bad[0][1]}` reduces a number written in the source before / after encoding it: a value that does not fit '
+                  f'its operand is silently replaced by another one instead of being rejected',
+                  facts={'source_numbers': len(sites)})
+    if n_sites < 8:
+        raise AnalysisError(f'only {n_sites} numeric conversions found in the compiler (inventory changed)')
 
 
 def helper_prefix_bounds(w: World, helper: str) -> list[tuple[int, int | None]]:
@@ -639,6 +724,9 @@ def run(w: World, rep: Report):
 
     # ---- R7 one- vs two-symbol operand forms are told apart by the instruction tables -------
     _lookahead(w, rep)
+
+    # ---- R8 numbers from the source are encoded unreduced -----------------------------------
+    _lossless_numbers(w, rep)
 
     from .report import depend
     depend(rep, w, 'rules_c19', ('C19.R3',), 'C11.TD19',
